@@ -115,6 +115,8 @@ World(n, own1, up1, img1, same, up2) ==
      same |-> same,          \* c[1] and c[2] live in the same stage (then the reference may be spelled relatively)
      sib |-> NoSibling,
      flicker |-> 0,          \* i > 0: the own file of c[i] was missing when the hashes were first asked for and is back now
+     mentions |-> 1,         \* how many times the arguments spell each reference they mention (the identity of a command line
+                             \* that names its input k times is decided once per mention: the k-th mention counts like the first)
      focus |-> "all",        \* "content": a content base world, only the content / file name aspects are perturbed
      where |-> Where0]
 
@@ -133,6 +135,13 @@ Bases == { World(p[1], p[2], p[3], p[4], p[5], p[6]) :
 NameBases == { [World(n, Default.own, Default.up, Default.img, FALSE, Default.up2)
                     EXCEPT !.sib = Sibling, !.where.scheme = s, !.where.replicated = r] :
                  n \in 1..NamingChain, s \in NamingSchemes, r \in BOOLEAN }
+
+(* mention base worlds: the default chains with every reference spelled several times in the arguments (a tool that    *)
+(* takes the same input for several options).  All aspects are perturbed: renaming the files, the components, the      *)
+(* stages or moving the instance must leave every hash alone however often the names occur in the command line.        *)
+MentionCounts == {2, 17}
+MentionBases == { [World(q[1], Default.own, Default.up, Default.img, q[2], Default.up2) EXCEPT !.mentions = q[3]] :
+                    q \in { r \in (1..2) \X BOOLEAN \X MentionCounts : r[1] = 1 => ~r[2] } }
 
 (* Contents.  A content id is an opaque identity for the specification: DISTINCT IDS ARE DISTINCT CONTENTS, whatever   *)
 (* their bytes have in common.  The ids below are rendered by the driver to bytes that stand in the relations a sloppy  *)
@@ -221,7 +230,7 @@ NoAsp == [kind |-> "none", at |-> 0]
 SibAt == 9          \* "position" of the sibling: not an index of the chain
 Other(x, s) == CHOOSE y \in s : y # x
 
-Init == /\ phase = "base" /\ a \in (Bases \cup NameBases \cup ContentBases \cup ExeBases) /\ b = a /\ asp = NoAsp
+Init == /\ phase = "base" /\ a \in (Bases \cup NameBases \cup ContentBases \cup ExeBases \cup MentionBases) /\ b = a /\ asp = NoAsp
 
 ContentFocus == {"ownContent", "upContent", "ownName", "identity"}
 ExeFocus == {"exe", "exeVia", "lit", "identity", "rename"}
